@@ -52,7 +52,29 @@ def _fast_tactic():
 def _qffpbv_tactic():
     return z3.TryFor(z3.Tactic("qffpbv"), QUERY_TIMEOUT_MS)
 
+_XC = {"n": 0}
+
+def _xcheck_dump(constraints, result):
+    """thorough tier: every VF_XCHECK_EVERY-th decided query is exported as SMT-LIB2 for re-decision by other solvers"""
+    d = os.environ.get("VF_XCHECK_DIR")
+    if not d: return
+    _XC["n"] += 1
+    every = int(os.environ.get("VF_XCHECK_EVERY", "150"))
+    if _XC["n"] % every: return
+    try:
+        s = z3.Solver(); s.add(*constraints)
+        txt = "(set-logic QF_BVFP)\n" + s.to_smt2()
+        name = os.path.join(d, f"q{os.getpid()}_{_XC['n']}_{result}.smt2")
+        with open(name, "w") as f: f.write(txt)
+    except Exception:
+        pass
+
 def solve(constraints):
+    r, m = _solve(constraints)
+    if r != "unknown": _xcheck_dump(constraints, r)
+    return r, m
+
+def _solve(constraints):
     """Decide satisfiability of a list of z3 Bools.  Returns (str result, model|None)."""
     for mk in (_fast_tactic, _qffpbv_tactic):
         try:
